@@ -105,22 +105,44 @@ def is_zero(t, spec):
 
 
 # ----------------------------------------------------------------------------------------------- reference decoders (CPython's, over terms)
-def ref_lnotab(bts, first, signed, spec):
-    """dis.findlinestarts for co_lnotab (<= 3.9): list of (address term, line term)"""
+def ref_lnotab(bts, first, signed, spec, code_len=None, dup_lines=False):
+    """dis.findlinestarts for co_lnotab (<= 3.9): list of (address term, line term).  code_len: the 3.8/3.9 readers stop at the first entry at or past the
+    end of the bytecode.  dup_lines: xdis's own extension (an entry with a real address increment below 255 is reported even when the line is unchanged)."""
     if len(bts) % 2:
         raise Undecodable("odd number of bytes in co_lnotab")
     out = []
     addr, line, last = 0, first, None
+    a = 0
     for i in range(0, len(bts), 2):
         a = unsigned_byte(bts[i], spec)
         l = unsigned_byte(bts[i + 1], spec)
         if not is_zero(a, spec):
-            if last is None or not is_zero(add(line, last, -1), spec):
+            dup = dup_lines and spec.interval(a)[1] < 255
+            if dup_lines and not dup and spec.interval(a)[0] < 255:
+                split_at(a, 254, spec)
+                raise Undecodable("increment %s may or may not be 255" % show(a))
+            if last is None or not is_zero(add(line, last, -1), spec) or dup:
                 out.append((addr, line))
                 last = line
             addr = add(addr, a)
+            if code_len is not None:
+                r = spec.interval(add(addr, code_len, -1))
+                if r is None:
+                    raise Undecodable("cannot compare %s with the code length" % show(addr))
+                if r[0] >= 0:
+                    return out
+                if r[1] >= 0:
+                    split_at(add(addr, code_len, -1), -1, spec)
+                    raise Undecodable("%s may or may not be past the end of the code" % show(addr))
         line = add(line, signed_of(l, spec) if signed else l)
-    if last is None or not is_zero(add(line, last, -1), spec):
+    final_dup = False
+    if dup_lines and len(bts):
+        ra = spec.interval(a)
+        final_dup = ra[0] > 0 and ra[1] < 255
+        if not final_dup and ra[1] > 0 and ra[0] < 255 and ra != (0, 0) and not (ra[0] >= 255):
+            split_at(a, 0 if ra[0] <= 0 else 254, spec)
+            raise Undecodable("last increment %s straddles 0 or 255" % show(a))
+    if last is None or not is_zero(add(line, last, -1), spec) or final_dup:
         out.append((addr, line))
     return out
 
